@@ -359,6 +359,36 @@ async def many_orphans(root, encrypted, n_chunks):
     return problems
 
 
+async def reordered_arguments(root, encrypted):
+    """unchanged data named in another order: several files of EQUAL size (small enough to share chunks with their neighbours in the
+    stream) snapshotted as explicit arguments, then again with the arguments permuted, then as a directory - no chunk object may be added"""
+    global CACHE_MODE
+    CACHE_MODE = 'none'
+    users = await setup_users(root, encrypted)
+    owner = users[0]
+    src = root / 'src'
+    src.mkdir()
+    files = []
+    for i, nm in enumerate(['m', 'c', 'x', 'a', 'k']):
+        f = src / nm
+        f.write_bytes(lib.content(30 + i, 37))          # 37 bytes each: below the maximal chunk length, bundled with neighbours
+        files.append(f)
+    be = Local(root / 'repo')
+    problems = []
+    r = await _plain_open(root, owner, cache=False)
+    with lib.quiet():
+        await r.snapshot(paths=list(files))
+        first = set(be.list_files('data/'))
+        for label, paths in (('reversed arguments', list(reversed(files))), ('rotated arguments', files[2:] + files[:2]), ('the directory', [src])):
+            await r.snapshot(paths=paths)
+            now = set(be.list_files('data/'))
+            if now != first:
+                problems.append({'problem': f'unchanged files given as {label}: chunk objects were added', 'added': len(now - first), 'before': len(first)})
+                first = now
+    await r.close()
+    return problems
+
+
 async def twins(root, encrypted):
     """several snapshots that share chunks ONLY with each other are deleted in one call (pruning snapshots of unchanged data): nothing
     they referenced may stay; then snapshots with pairwise distinct chunk sets deleted in one call, in both name orders"""
@@ -617,6 +647,17 @@ def main():
                     probs = [{'problem': 'exception', 'error': f'{type(e).__name__}: {e}'[:300], 'tb': traceback.format_exc()[-600:]}]
                 if probs:
                     failures.append({'id': f'twins_{int(encrypted)}', 'class': None, 'case': {'encrypted': encrypted, 'scenario': 'several snapshots deleted in one call'}, 'detail': probs[:3]})
+    if prop == 'C07':
+        for encrypted in (True, False):
+            with lib.scratch('vf_hist_') as root:
+                cases += 1
+                try:
+                    probs = asyncio.run(reordered_arguments(root, encrypted))
+                except Exception as e:
+                    import traceback
+                    probs = [{'problem': 'exception', 'error': f'{type(e).__name__}: {e}'[:300], 'tb': traceback.format_exc()[-600:]}]
+                if probs:
+                    failures.append({'id': f'reordered_{int(encrypted)}', 'class': None, 'case': {'encrypted': encrypted, 'scenario': 'equal-sized unchanged files named in another order'}, 'detail': probs[:3]})
     if prop == 'C08':
         for encrypted in (True, False):
             with lib.scratch('vf_hist_') as root:
